@@ -633,7 +633,7 @@ func profile(nameMatcher bool, excluded *int64) hist.Profile {
 			"file-add": 1, "file-del": 4, "rename": 2, "rename-edit": 1,
 			"rule-add": 3, "rule-mod": 3, "rule-del": 8, "rule-dup": 1, "rule-swap": 1,
 			"cosmetic": 2, "revert": 1, "replace": 4, "name-del": 5, "invalid-add": 2, "invalid-del": 1,
-			"del-dup-first": 3, "consume": 3, "file-dir": 2,
+			"del-dup-first": 3, "consume": 3, "file-dir": 2, "path-reuse": 2,
 		},
 		Cosmetics:        true,
 		ChainOneIn:       4,
